@@ -26,6 +26,11 @@ def run(rep, tier, kinds, prop, stackkw=None):
     rep.set("histories_simulated", len(sims))
     traces = []
     n = common.seed()
+    for h in CL.probe_histories():
+        for kind in kinds:
+            for v in range(4):
+                n += 1
+                traces.append(CL.replay_history(kind, h, n + v, **(stackkw or {})))
     for h in hs:
         n += 1
         if tier == "quick" and n % 3:
